@@ -375,6 +375,15 @@ def complement_universe(rng):
             sub_rows.append([d1, [d2, a], [0, 0], False, True])
         rng.shuffle(sub_rows)
         packs[v] = {"n": nxt[0], "rows": sub_rows, "empties": [], "foreign": not indirect}
+    if rng.random() < 0.3:
+        # equivalence chains: A = H = C in the specification (H hidden inside the path), and a
+        # verified class whose pack says V = H: after the expansion two chains run through H
+        a_, h_, c_, v_ = fresh(), fresh(), fresh(), fresh()
+        kids += [a_, v_]
+        rows += [[a_, [h_], [0], True, True], [h_, [c_], [0], True, True], [c_, [], [], False, False],
+                 [v_, [], [], False, False]]
+        packs[v_] = {"n": nxt[0], "rows": [[v_, [h_], [0], True, True], [h_, [c_], [0], True, True],
+                                           [c_, [], [], False, False]], "empties": [], "foreign": False}
     if via_reverse:
         w, z, b = fresh(), fresh(), fresh()
         kids += [w, z]  # Z is a child of the root too, so that the search meets (and verifies) it
